@@ -79,10 +79,10 @@ Definition mark (p : pool) (k fl : N) : pool * out :=
   | Some r =>
       match lookup k r with
       | Some c =>
-          if fl =? 0 then (mkPool (Some (delete k r)) (last p) (pendF p) (pendR p), mkOut [] [(k, false)] false)
-          else
-            let c' := mkEntry k (last p + 1) (negb (N.testbit fl 0)) (negb (N.testbit fl 1)) in
-            (mkPool (Some (store c' r)) (last p + 1) (pendF p) (pendR p), out_nil)
+          (* also for flags = 0: nothing is owed any more (both status flags set) but the pool keeps tracking
+             the value — it still owns its Go finaliser and the value still belongs to this pool's context *)
+          let c' := mkEntry k (last p + 1) (negb (N.testbit fl 0)) (negb (N.testbit fl 1)) in
+          (mkPool (Some (store c' r)) (last p + 1) (pendF p) (pendR p), out_nil)
       | None =>
           if fl =? 0 then (p, out_nil)
           else
